@@ -168,30 +168,53 @@ func checkC01(c *Ctx, r *Report) {
 		viol := ""
 		var sites []string
 		nTrue := 0
+		isAlwaysTest := func(cnd ssa.Value, pol bool) bool {
+			cnd, pol = unwrapNot(cnd, pol)
+			a := sliceOf(cnd)
+			bo, isB := cnd.(*ssa.BinOp)
+			return isB && ((bo.Op == token.EQL && pol) || (bo.Op == token.NEQ && !pol)) && a.hasFieldNamed("Type") && hasConst(a, `"Always"`)
+		}
+		// answer: the value returned at the end of block b is true only under Type == Always -
+		// the constant true behind such a test, or the test itself (`return o != nil && o.Type == Always`)
+		var answer func(v ssa.Value, b *ssa.BasicBlock, pos string, depth int)
+		answer = func(v ssa.Value, b *ssa.BasicBlock, pos string, depth int) {
+			switch x := v.(type) {
+			case *ssa.Const:
+				if isBoolConst(x, false) {
+					return
+				}
+				nTrue++
+				for _, f := range dominatingFacts(b) {
+					if isAlwaysTest(f.Cond, f.Pol) {
+						return
+					}
+				}
+				viol = fmt.Sprintf("%s: IsHiddenAsset returns true on a path not guarded by Type == HideMethodAlways", pos)
+			case *ssa.Phi:
+				if depth > 6 {
+					viol = fmt.Sprintf("%s: IsHiddenAsset returns a non-constant", pos)
+					return
+				}
+				for i, e := range x.Edges {
+					answer(e, x.Block().Preds[i], pos, depth+1)
+				}
+			default:
+				if isAlwaysTest(v, true) {
+					nTrue++
+					return
+				}
+				viol = fmt.Sprintf("%s: IsHiddenAsset returns a non-constant that is not the test Type == HideMethodAlways", pos)
+			}
+		}
 		for _, ex := range exitsOf(fi.SSA) {
 			if ex.Ret == nil {
 				continue
 			}
 			sites = append(sites, w.pos(retPos(ex)))
-			if isBoolConst(ex.Ret.Results[0], true) {
-				nTrue++
-				ok := false
-				for _, f := range dominatingFacts(ex.Block) {
-					cnd, pol := unwrapNot(f.Cond, f.Pol)
-					a := sliceOf(cnd)
-					if bo, isB := cnd.(*ssa.BinOp); isB && ((bo.Op == token.EQL && pol) || (bo.Op == token.NEQ && !pol)) && a.hasFieldNamed("Type") && hasConst(a, `"Always"`) {
-						ok = true
-					}
-				}
-				if !ok {
-					viol = fmt.Sprintf("%s: IsHiddenAsset returns true on a path not guarded by Type == HideMethodAlways", w.pos(retPos(ex)))
-				}
-			} else if !isBoolConst(ex.Ret.Results[0], false) {
-				viol = fmt.Sprintf("%s: IsHiddenAsset returns a non-constant", w.pos(retPos(ex)))
-			}
+			answer(unspill(ex.Ret.Results[0], ex.Block), ex.Block, w.pos(retPos(ex)), 0)
 		}
-		if nTrue != 1 {
-			viol = fmt.Sprintf("expected exactly one 'return true' in IsHiddenAsset, found %d", nTrue)
+		if nTrue == 0 {
+			viol = "IsHiddenAsset never answers true: `@Hidden` would not hide anything"
 		}
 		r.add("C01.a", "guardedby", "swagtool.IsHiddenAsset:true-iff-Always", "IsHiddenAsset answers true only under Type == HideMethodAlways", []string{fi.Key}, sites, viol)
 	}
